@@ -3,7 +3,7 @@
    same way.  One lemma per constructor, assembled by mutual induction on the syntax. *)
 From Coq Require Import ZArith NArith List Bool Lia.
 Import ListNotations.
-From SV Require Import Common.Int32 C01expr.Syntax C01expr.SrcSem C01expr.HirSem C01expr.Lower C01expr.Proofs.
+From SV Require Import Common.Int32 C01expr.Syntax C01expr.SrcSem C01expr.HirSem C01expr.Lower C01expr.Proofs C01expr.ProofsPat.
 
 Section Main.
   Variable w : world.
@@ -13,6 +13,7 @@ Section Main.
   Notation lower := (Lower.lower Pinned tmp).
   Notation lower_args := (Lower.lower_args Pinned tmp).
   Notation lower_blk := (Lower.lower_blk Pinned tmp).
+  Notation lower_arms := (Lower.lower_arms Pinned tmp).
   Notation run := (exec_list (exec w)).
   Notation frame := (Lower.frame tmp).
   Notation stable := (Lower.stable tmp).
@@ -30,6 +31,11 @@ Section Main.
     forall cx n r s tr D ss rs n' cx',
       lower_args es cx n = (ss, rs, n', cx') -> inv r cx s n -> dom_in r D -> nss D es ->
       sound_l s tr n n' ss rs (seval_args w true r es tr).
+  Definition P_arms (cs : arms) : Prop :=
+    forall re coll cx n r s tr D v ss rr n' cx',
+      lower_arms cs re coll cx n = (ss, rr, n', cx') -> inv r cx s n -> dom_in r D -> nsa D cs ->
+      heval s re = Some v -> stable n re ->
+      sound s tr n n' ss rr (seval_arms w true r cs v tr).
   Definition P_blk (b : blk) : Prop :=
     forall cx n r s tr D ss re n' cx',
       lower_blk b cx n = (ss, re, n', cx') -> cx <> [] -> inv r cx s n -> dom_in r D -> nsb D b ->
@@ -47,14 +53,14 @@ Section Main.
     inv r cx s n -> frame n n1 s s1 -> (n <= n1)%nat -> inv r cx s1 n1.
   Proof.
     intros r cx s n s1 n1 HI HF HL x v Hx. destruct (HI x v Hx) as (y & Hr & Hs & Hl).
-    exists y. repeat split; auto. rewrite HF; auto. apply low_offr; auto. eapply low_mono; eauto.
+    exists y. repeat split; auto. rewrite HF; auto. eapply low_mono; eauto.
   Qed.
 
   Lemma frame_comp : forall n n' a b c d s s1 s2,
     frame a b s s1 -> frame c d s1 s2 -> (n <= a)%nat -> (b <= n')%nat -> (n <= c)%nat -> (d <= n')%nat -> frame n n' s s2.
   Proof.
     intros n n' a b c d s s1 s2 F1 F2 L1 L2 L3 L4 y Hy.
-    rewrite F2, F1; auto; intros i Hi Hi'; apply Hy; lia.
+    rewrite F2, F1; auto; eapply (low_mono tmp); eauto.
   Qed.
 
   Lemma run_app : forall a b s tr,
@@ -119,7 +125,7 @@ Section Main.
         apply stable_tmp. lia.
     - intros Hf. apply run_app_fail. auto.
     - destruct So1 as (s1' & R1 & V1 & F1 & St1).
-      unfold binop_sem. destruct v1 as [z| | | |]; try (simpl; stuck).
+      unfold binop_sem. destruct v1 as [z| | | | |]; try (simpl; stuck).
       simpl. exists (upd s1' (tmp n1) (Some (VInt (wrap32 (0 - z))))). split.
       + rewrite (run_app_next _ _ _ _ _ _ R1). simpl. rewrite V1. reflexivity.
       + split. simpl. apply upd_same. split.
@@ -283,6 +289,9 @@ Section Main.
   Qed.
 
   (* ------------------------------------------------------------------ && and || *)
+  Lemma truth_htruth : forall v b, truth v = Some b -> htruth v = b.
+  Proof. intros v b H. destruct v as [z| | | | |]; try discriminate. destruct z as [|p|p]; simpl in *; try discriminate. congruence. destruct p; simpl in *; try discriminate. congruence. Qed.
+
   Lemma inv_S : forall r cx s n, inv r cx s n -> inv r cx s (S n).
   Proof. intros. eapply inv_frame; eauto. apply frame_refl. Qed.
 
@@ -336,13 +345,13 @@ Section Main.
       + destruct (seval w true r b tr1) as [v2 tr2|f2].
         * destruct So2 as (s2' & R2 & V2 & F2 & St2).
           exists (upd s2' (tmp n) (Some v2)). split.
-          -- rewrite (run_app_next _ _ _ _ _ _ R1). simpl. rewrite V1, T, R2. simpl. rewrite V2. reflexivity.
+          -- rewrite (run_app_next _ _ _ _ _ _ R1). simpl. rewrite V1, (truth_htruth _ _ T), R2. simpl. rewrite V2. reflexivity.
           -- split. apply upd_same. split; [|apply stable_tmp; lia].
              apply frame_upd_r; try lia.
              eapply frame_comp; [exact F1|exact F2|lia|lia|lia|lia].
-        * intros Hf. rewrite (run_app_next _ _ _ _ _ _ R1). simpl. rewrite V1, T, (So2 Hf). reflexivity.
+        * intros Hf. rewrite (run_app_next _ _ _ _ _ _ R1). simpl. rewrite V1, (truth_htruth _ _ T), (So2 Hf). reflexivity.
       + exists (upd s1' (tmp n) (Some (VInt 0))). split.
-        * rewrite (run_app_next _ _ _ _ _ _ R1). simpl. rewrite V1, T. reflexivity.
+        * rewrite (run_app_next _ _ _ _ _ _ R1). simpl. rewrite V1, (truth_htruth _ _ T). reflexivity.
         * split. apply upd_same. split; [|apply stable_tmp; lia].
           apply frame_upd_r; try lia. exact F1'.
   Qed.
@@ -383,17 +392,17 @@ Section Main.
     - rewrite or_nonlit in AR by auto. inv_pair AR.
       destruct (truth v1) as [[|]|] eqn:T; [| |stuck].
       + exists (upd s1' (tmp n) (Some (VInt 1))). split.
-        * rewrite (run_app_next _ _ _ _ _ _ R1). simpl. rewrite V1, T. reflexivity.
+        * rewrite (run_app_next _ _ _ _ _ _ R1). simpl. rewrite V1, (truth_htruth _ _ T). reflexivity.
         * split. apply upd_same. split; [|apply stable_tmp; lia].
           apply frame_upd_r; try lia. exact F1'.
       + destruct (seval w true r b tr1) as [v2 tr2|f2].
         * destruct So2 as (s2' & R2 & V2 & F2 & St2).
           exists (upd s2' (tmp n) (Some v2)). split.
-          -- rewrite (run_app_next _ _ _ _ _ _ R1). simpl. rewrite V1, T, R2. simpl. rewrite V2. reflexivity.
+          -- rewrite (run_app_next _ _ _ _ _ _ R1). simpl. rewrite V1, (truth_htruth _ _ T), R2. simpl. rewrite V2. reflexivity.
           -- split. apply upd_same. split; [|apply stable_tmp; lia].
              apply frame_upd_r; try lia.
              eapply frame_comp; [exact F1|exact F2|lia|lia|lia|lia].
-        * intros Hf. rewrite (run_app_next _ _ _ _ _ _ R1). simpl. rewrite V1, T, (So2 Hf). reflexivity.
+        * intros Hf. rewrite (run_app_next _ _ _ _ _ _ R1). simpl. rewrite V1, (truth_htruth _ _ T), (So2 Hf). reflexivity.
   Qed.
 
   (* ------------------------------------------------------------------ calls: receiver / callee, then the arguments *)
@@ -563,10 +572,10 @@ Section Main.
       destruct (seval w true r e1 tr1) as [v1 tr2|f1].
       + destruct So1 as (s1' & R1 & V1 & F1 & St1).
         exists (upd s1' (tmp n1) (Some v1)). split.
-        * rewrite (run_app_next _ _ _ _ _ _ Rc). simpl. rewrite Vc, T, R1. simpl. rewrite V1. reflexivity.
+        * rewrite (run_app_next _ _ _ _ _ _ Rc). simpl. rewrite Vc, (truth_htruth _ _ T), R1. simpl. rewrite V1. reflexivity.
         * split. apply upd_same. split; [|apply stable_tmp; lia].
           apply frame_upd_r; try lia. eapply frame_comp; [exact Fc|exact F1|lia|lia|lia|lia].
-      + intros Hf. rewrite (run_app_next _ _ _ _ _ _ Rc). simpl. rewrite Vc, T, (So1 Hf). reflexivity.
+      + intros Hf. rewrite (run_app_next _ _ _ _ _ _ Rc). simpl. rewrite Vc, (truth_htruth _ _ T), (So1 Hf). reflexivity.
     - assert (HI2 : inv r cx2 sc' n2).
       { eapply inv_after; [exact HIc|exact HD| |exact X1|apply frame_refl|lia].
         intros x Hx. eapply ns_bv; eauto. }
@@ -574,10 +583,10 @@ Section Main.
       destruct (seval w true r e2 tr1) as [v2 tr2|f2].
       + destruct So2 as (s2' & R2 & V2 & F2 & St2).
         exists (upd s2' (tmp n1) (Some v2)). split.
-        * rewrite (run_app_next _ _ _ _ _ _ Rc). simpl. rewrite Vc, T, R2. simpl. rewrite V2. reflexivity.
+        * rewrite (run_app_next _ _ _ _ _ _ Rc). simpl. rewrite Vc, (truth_htruth _ _ T), R2. simpl. rewrite V2. reflexivity.
         * split. apply upd_same. split; [|apply stable_tmp; lia].
           apply frame_upd_r; try lia. eapply frame_comp; [exact Fc|exact F2|lia|lia|lia|lia].
-      + intros Hf. rewrite (run_app_next _ _ _ _ _ _ Rc). simpl. rewrite Vc, T, (So2 Hf). reflexivity.
+      + intros Hf. rewrite (run_app_next _ _ _ _ _ _ Rc). simpl. rewrite Vc, (truth_htruth _ _ T), (So2 Hf). reflexivity.
   Qed.
 
   (* ------------------------------------------------------------------ blocks *)
@@ -844,7 +853,7 @@ Section Main.
     destruct (seval w true r e tr) as [v1 tr1|f1]; [|intros Hf; apply run_app_fail; auto].
     destruct So1 as (s1' & R1 & V1 & F1 & St1).
     destruct (bind_tuple r els v1) as [r'|] eqn:BT; [|stuck].
-    destruct v1 as [|?|vs|? ?|?]; try discriminate. simpl in BT.
+    destruct v1 as [|?|vs|? ?|? ?|?]; try discriminate. simpl in BT.
     set (k := length bs) in *. set (m := length els) in *.
     (* the declarations *)
     destruct (run_decls n1 (seq 0 k) s1' tr1) as (sd & Rd & Wd).
@@ -878,7 +887,7 @@ Section Main.
         assert (HyD : In y D) by (apply HD; congruence).
         destruct (HIe y vy Hy) as (y' & Hr & Hs & Hl). exists y'. split.
         rewrite resolve_insert_all_other; auto. intros Hyb. eapply Hbs; eauto.
-        split. rewrite (Fp y'), (Fd y'); [exact Hs|apply low_offr; auto|apply low_offr; auto].
+        split. rewrite (Fp y'), (Fd y'); [exact Hs|auto|eapply low_mono; eauto; lia].
         eapply low_mono; eauto. lia. }
     assert (HD2 : dom_in r' (bs ++ D)).
     { intros y Hy. apply in_or_app.
@@ -943,8 +952,291 @@ Section Main.
         apply frame_upd_r; try lia. apply frame_upd; lia.
   Qed.
 
+  (* ------------------------------------------------------------------ pattern sites: let p, if let, match *)
+  Lemma slookup_in : forall b x w0, slookup b x = Some w0 -> In x (map fst b).
+  Proof.
+    induction b as [|[y v] t IH]; intros x w0 H; simpl in *. discriminate.
+    destruct (slookup t x) eqn:E. right. eapply IH; eauto.
+    destruct (N.eqb x y) eqn:Exy; [|discriminate]. apply N.eqb_eq in Exy. left; auto.
+  Qed.
+  Lemma bind_all_slookup : forall b r x, bind_all r b x = match slookup b x with Some w0 => Some w0 | None => r x end.
+  Proof.
+    induction b as [|[y v] t IH]; intros r x; simpl. reflexivity.
+    rewrite IH. destruct (slookup t x); auto. unfold upd. destruct (N.eqb x y); reflexivity.
+  Qed.
+
+  Lemma smatch_list_dom : forall ps,
+    Forall (fun p => forall v b, smatch p v = Some b -> incl (map fst b) (binders p)) ps ->
+    forall vs b, smatch_list smatch ps vs = Some b -> incl (map fst b) (flat_map binders ps).
+  Proof.
+    induction 1 as [|p t Hp Ht IH]; intros vs b H; simpl in *.
+    - inv_pair H. intros x [].
+    - destruct vs as [|v r]; [discriminate|]. destruct (smatch p v) as [b1|] eqn:E1; [|discriminate].
+      destruct (smatch_list smatch t r) as [b2|] eqn:E2; [|discriminate]. inv_pair H.
+      rewrite map_app. intros x Hx. apply in_app_or in Hx as [Hx|Hx]; apply in_or_app; [left; eapply Hp|right; eapply IH]; eauto.
+  Qed.
+  Lemma smatch_dom : forall p v b, smatch p v = Some b -> incl (map fst b) (binders p).
+  Proof.
+    induction p using pat_ind'; intros v b Hm; simpl in *.
+    - inv_pair Hm. intros x [].
+    - inv_pair Hm. intros y Hy. exact Hy.
+    - destruct v; try discriminate. eapply smatch_list_dom; eauto.
+    - destruct v as [| |vs| | |]; try discriminate. revert b Hm. induction H as [|el t Hp Ht IH]; intros b Hm; simpl in *.
+      + inv_pair Hm. intros x [].
+      + destruct (nth_error vs (fst el)) as [w0|]; [|discriminate]. destruct (smatch (snd el) w0) as [b1|] eqn:E1; [|discriminate].
+        destruct (smatch_els smatch vs t) as [b2|] eqn:E2; [|discriminate]. inv_pair Hm.
+        rewrite map_app. intros x Hx. apply in_app_or in Hx as [Hx|Hx]; apply in_or_app; [left; eapply Hp|right; eapply IH]; eauto.
+    - destruct v; try discriminate. destruct (Nat.eqb tag0 tag); [|discriminate]. eapply smatch_list_dom; eauto.
+    - revert b Hm. induction H as [|q t Hq Ht IH]; intros b Hm; simpl in *. discriminate.
+      destruct (smatch q v) as [b1|] eqn:E1.
+      + inv_pair Hm. intros x Hx. apply in_or_app; left. eapply Hq; eauto.
+      + intros x Hx. apply in_or_app; right. eapply IH; eauto.
+  Qed.
+
+  (* the invariant after a pattern site whose pattern matched: the variables of the pattern resolve to their late-init
+     variables, which hold the matched values; the others are as before *)
+  Lemma inv_after_guard : forall r cxg s s1 ng n2 D p bs b v,
+    inv r cxg s ng -> dom_in r D -> (forall x, In x bs -> ~ In x D) -> NoDup bs -> incl (binders p) bs -> cxg <> [] ->
+    smatch p v = Some b ->
+    (forall y, low ng y -> s1 y = s y) ->
+    (forall x w', slookup b x = Some w' -> s1 (bn_of tmp bs ng x) = Some w') ->
+    (ng + length bs <= n2)%nat ->
+    inv (bind_all r b) (insert_all tmp cxg bs ng) s1 n2 /\ dom_in (bind_all r b) (bs ++ D).
+  Proof.
+    intros r cxg s s1 ng n2 D p bs b v HI HD Hbs Hnd Hincl Hne Hm Hfr Hb Hn. split.
+    - intros x vx Hx. rewrite bind_all_slookup in Hx. destruct (slookup b x) as [w0|] eqn:Lk.
+      + inv_pair Hx. assert (Hxb : In x bs) by (apply Hincl; eapply smatch_dom; eauto; eapply slookup_in; eauto).
+        destruct (index_of_In _ _ Hxb) as (j & Hj & Hl).
+        exists (tmp (ng + j)). split. apply resolve_insert_all_in; auto.
+        split. rewrite <- (Hb x vx Lk). unfold bn_of. rewrite Hj. reflexivity.
+        apply (low_tmp tmp tmp_inj). lia.
+      + assert (HxD : In x D) by (apply HD; congruence).
+        destruct (HI x vx Hx) as (y & Hr & Hs & Hl). exists y. split.
+        rewrite resolve_insert_all_other; auto. intros Hxb. eapply Hbs; eauto.
+        split. rewrite Hfr; auto. eapply low_mono; eauto. lia.
+    - intros x Hx. rewrite bind_all_slookup in Hx. apply in_or_app. destruct (slookup b x) as [w0|] eqn:Lk.
+      + left. apply Hincl. eapply smatch_dom; eauto. eapply slookup_in; eauto.
+      + right. apply HD. auto.
+  Qed.
+
+  (* ... and when the bindings are only in the scope stack (the pattern did not match, or the else branch) *)
+  Lemma inv_keys_only : forall r cxg s s1 ng n2 D bs,
+    inv r cxg s ng -> dom_in r D -> (forall x, In x bs -> ~ In x D) ->
+    (forall y, low ng y -> s1 y = s y) -> (ng <= n2)%nat ->
+    inv r (insert_all tmp cxg bs ng) s1 n2.
+  Proof.
+    intros r cxg s s1 ng n2 D bs HI HD Hbs Hfr Hn x vx Hx.
+    assert (HxD : In x D) by (apply HD; congruence).
+    destruct (HI x vx Hx) as (y & Hr & Hs & Hl). exists y. split.
+    rewrite resolve_insert_all_other; auto. intros Hxb. eapply Hbs; eauto.
+    split. rewrite Hfr; auto. eapply low_mono; eauto.
+  Qed.
+
+  Lemma case_BLetP : forall p bs e b, P_expr e -> P_blk b -> P_blk (BLetP p bs e b).
+  Proof.
+    intros p bs e b IHe IHb cx n r s tr D ss re n' cx' H Hne HI HD HN. simpl in H.
+    destruct (lower e cx n) as [[[s1 r1] n1] cx1] eqn:E1.
+    destruct (guard tmp p bs r1 n1) as [[gs gc] n2] eqn:G.
+    destruct (lower_blk b (insert_all tmp cx1 bs n1) n2) as [[[s2 r2] n3] cx2] eqn:E2. inv_pair H.
+    simpl in HN. destruct HN as (HNe & (Hwf & Hnd & Hincl & Hbs & Htop) & HNb).
+    pose proof (IHe _ _ _ s tr _ _ _ _ _ E1 HI HD HNe) as So1. unfold Lower.sound, exec_block in So1.
+    destruct (shape_expr _ _ _ _ _ _ _ _ _ E1) as (L1 & X1).
+    pose proof (extE_nonempty _ _ _ X1 Hne) as Hne1.
+    pose proof (guard_cnt _ _ _ _ _ _ _ _ G) as LG.
+    assert (Hne2 : insert_all tmp cx1 bs n1 <> []).
+    { eapply extB_nonempty. apply extB_insert_all with (B := bs); auto. apply incl_refl. }
+    destruct (shape_blk _ _ _ _ _ _ _ _ _ E2 Hne2) as (L2 & X2).
+    unfold Lower.sound, exec_block. rewrite seval_blk_BLetP.
+    destruct (seval w true r e tr) as [v1 tr1|f1]; [|intros Hf; apply run_app_fail; auto].
+    destruct So1 as (s1' & R1 & V1 & F1 & St1).
+    destruct (sshape p v1) eqn:Hsh; [|stuck].
+    destruct (guard_sound w tmp tmp_inj _ _ _ _ _ s1' tr1 _ _ _ G Hwf Hnd Hincl Htop V1 Hsh St1) as (sg & Rg & Fg & Mg).
+    destruct (smatch p v1) as [bd|] eqn:Hm; [|stuck].
+    destruct Mg as (_ & Bg).
+    assert (HIe : inv r cx1 s1' n1).
+    { eapply inv_after; eauto. intros z Hz. eapply ns_bv; eauto. }
+    destruct (inv_after_guard _ _ _ sg _ n2 _ _ _ _ _ HIe HD Hbs Hnd Hincl Hne1 Hm Fg Bg LG) as (HI2 & HD2).
+    pose proof (IHb _ _ _ sg tr1 _ _ _ _ _ E2 Hne2 HI2 HD2 HNb) as So2. unfold Lower.sound, exec_block in So2.
+    destruct (seval_blk w true (bind_all r bd) b tr1) as [v2 tr2|f2].
+    - destruct So2 as (s2' & R2 & V2 & F2 & St2).
+      exists s2'. split.
+      + rewrite (run_app_next _ _ _ _ _ _ R1). rewrite (run_app_next _ _ _ _ _ _ Rg). exact R2.
+      + split; [exact V2|]. split; [|exact St2].
+        intros y Hy. rewrite F2, Fg, F1; auto; eapply (low_mono tmp); eauto; lia.
+    - intros Hf. rewrite (run_app_next _ _ _ _ _ _ R1). rewrite (run_app_next _ _ _ _ _ _ Rg). auto.
+  Qed.
+
+  Lemma case_EIfLet : forall p bs e e1 e2, P_expr e -> P_expr e1 -> P_expr e2 -> P_expr (EIfLet p bs e e1 e2).
+  Proof.
+    intros p bs e e1 e2 IHc IH1 IH2 cx n r s tr D ss re n' cx' H HI HD HN. simpl in H.
+    destruct (lower e (push cx) n) as [[[se rs] n1] cx1] eqn:Ec.
+    destruct (guard tmp p bs rs n1) as [[gs gc] n2] eqn:G.
+    simpl in HN. destruct HN as (HNc & (Hwf & Hnd & Hincl & Hbs & Htop) & HN1 & HN2).
+    pose proof (IHc _ _ _ s tr _ _ _ _ _ Ec (inv_push _ _ _ _ HI) HD HNc) as Soc. unfold Lower.sound, exec_block in Soc.
+    destruct (shape_expr _ _ _ _ _ _ _ _ _ Ec) as (Lc & Xc).
+    pose proof (guard_cnt _ _ _ _ _ _ _ _ G) as LG.
+    assert (Hne1 : cx1 <> []) by (eapply extE_nonempty; eauto; unfold push; congruence).
+    unfold Lower.sound, exec_block. rewrite seval_EIfLet.
+    destruct (seval w true r e tr) as [v tr1|f].
+    2:{ intros Hf.
+        destruct (is_lit gc 1).
+        { destruct (lower e1 (insert_all tmp cx1 bs n1) n2) as [[[s1 r1] n3] cx3]. inv_pair H. apply run_app_fail; auto. }
+        destruct (is_lit gc 0).
+        { destruct (lower e2 (insert_all tmp cx1 bs n1) n2) as [[[s1 r1] n3] cx3]. inv_pair H. apply run_app_fail; auto. }
+        destruct (lower e1 (insert_all tmp cx1 bs n1) (S n2)) as [[[s1 r1] n3] cx3].
+        destruct (lower e2 cx3 n3) as [[[s2 r2] n4] cx4]. inv_pair H. apply run_app_fail; auto. }
+    destruct Soc as (sc' & Rc & Vc & Fc & Stc).
+    destruct (sshape p v) eqn:Hsh; [|stuck].
+    destruct (guard_sound w tmp tmp_inj _ _ _ _ _ sc' tr1 _ _ _ G Hwf Hnd Hincl Htop Vc Hsh Stc) as (sg & Rg & Fg & Mg).
+    assert (HIc : inv r cx1 sc' n1).
+    { eapply inv_after; [apply inv_push; exact HI|exact HD| |exact Xc|exact Fc|exact Lc].
+      intros x Hx. eapply ns_bv; eauto. }
+    assert (Fcg : frame n n2 s sg).
+    { intros y Hy. rewrite Fg, Fc; auto. eapply (low_mono tmp); eauto. }
+    (* the two environments in which a branch may run *)
+    assert (HIthen : forall bd, smatch p v = Some bd ->
+              (forall x w', slookup bd x = Some w' -> sg (bn_of tmp bs n1 x) = Some w') ->
+              forall m, (n2 <= m)%nat -> inv (bind_all r bd) (insert_all tmp cx1 bs n1) sg m /\ dom_in (bind_all r bd) (bs ++ D)).
+    { intros bd Hm Bg m Hm2. eapply inv_after_guard; eauto. lia. }
+    assert (HIelse : forall cxe m, (forall x, ~ In x (bs ++ bv e1) -> resolve cxe x = resolve cx1 x) -> (n1 <= m)%nat ->
+              inv r cxe sg m).
+    { intros cxe m Hres Hm2 x vx Hx. assert (HxD : In x D) by (apply HD; congruence).
+      destruct (HIc x vx Hx) as (y & Hr & Hs & Hl). exists y. split.
+      - rewrite Hres; auto. intros Hin. apply in_app_or in Hin as [Hin|Hin]. eapply Hbs; eauto.
+        eapply (ns_bv e1 (bs ++ D)); eauto. apply in_or_app; auto.
+      - split. rewrite Fg; auto. eapply low_mono; eauto. }
+    assert (Dweak : dom_in r (bs ++ D)).
+    { intros x Hx. apply in_or_app. right. auto. }
+    destruct (is_lit gc 1) eqn:L1.
+    { apply is_lit_true in L1. subst gc.
+      destruct (lower e1 (insert_all tmp cx1 bs n1) n2) as [[[s1 r1] n3] cx3] eqn:E1. inv_pair H.
+      destruct (shape_expr _ _ _ _ _ _ _ _ _ E1) as (Lb & X1).
+      destruct (smatch p v) as [bd|] eqn:Hm.
+      - destruct Mg as (_ & Bg). destruct (HIthen bd eq_refl Bg n2 (Nat.le_refl _)) as (HI2 & HD2).
+        pose proof (IH1 _ _ _ sg tr1 _ _ _ _ _ E1 HI2 HD2 HN1) as So1. unfold Lower.sound, exec_block in So1.
+        destruct (seval w true (bind_all r bd) e1 tr1) as [v1 tr2|f1].
+        + destruct So1 as (s1' & R1 & V1 & F1 & St1).
+          exists s1'. split. rewrite (run_app_next _ _ _ _ _ _ Rc), (run_app_next _ _ _ _ _ _ Rg). exact R1.
+          split; [exact V1|]. split; [|exact St1]. eapply frame_trans; eauto. lia.
+        + intros Hf. rewrite (run_app_next _ _ _ _ _ _ Rc), (run_app_next _ _ _ _ _ _ Rg). auto.
+      - simpl in Mg. discriminate. }
+    destruct (is_lit gc 0) eqn:L0.
+    { apply is_lit_true in L0. subst gc.
+      destruct (lower e2 (insert_all tmp cx1 bs n1) n2) as [[[s1 r1] n3] cx3] eqn:E1. inv_pair H.
+      destruct (shape_expr _ _ _ _ _ _ _ _ _ E1) as (Lb & X1).
+      destruct (smatch p v) as [bd|] eqn:Hm.
+      - destruct Mg as (Mg & _). simpl in Mg. discriminate.
+      - assert (HI2 : inv r (insert_all tmp cx1 bs n1) sg n2).
+        { apply HIelse; [|lia]. intros x Hx. apply resolve_insert_all_other. intros Hin. apply Hx. apply in_or_app; auto. }
+        pose proof (IH2 _ _ _ sg tr1 _ _ _ _ _ E1 HI2 Dweak HN2) as So1. unfold Lower.sound, exec_block in So1.
+        destruct (seval w true r e2 tr1) as [v1 tr2|f1].
+        + destruct So1 as (s1' & R1 & V1 & F1 & St1).
+          exists s1'. split. rewrite (run_app_next _ _ _ _ _ _ Rc), (run_app_next _ _ _ _ _ _ Rg). exact R1.
+          split; [exact V1|]. split; [|exact St1]. eapply frame_trans; eauto. lia.
+        + intros Hf. rewrite (run_app_next _ _ _ _ _ _ Rc), (run_app_next _ _ _ _ _ _ Rg). auto. }
+    (* the general case *)
+    destruct (lower e1 (insert_all tmp cx1 bs n1) (S n2)) as [[[s1 r1] n3] cx3] eqn:E1.
+    destruct (lower e2 cx3 n3) as [[[s2 r2] n4] cx4] eqn:E2. inv_pair H.
+    destruct (shape_expr _ _ _ _ _ _ _ _ _ E1) as (L1' & X1).
+    destruct (shape_expr _ _ _ _ _ _ _ _ _ E2) as (L2' & X2).
+    destruct (smatch p v) as [bd|] eqn:Hm.
+    - destruct Mg as (Cg & Bg). destruct (HIthen bd eq_refl Bg (S n2)) as (HI2 & HD2). lia.
+      pose proof (IH1 _ _ _ sg tr1 _ _ _ _ _ E1 HI2 HD2 HN1) as So1. unfold Lower.sound, exec_block in So1.
+      destruct (seval w true (bind_all r bd) e1 tr1) as [v1 tr2|f1].
+      + destruct So1 as (s1' & R1 & V1 & F1 & St1).
+        exists (upd s1' (tmp n2) (Some v1)). split.
+        * rewrite (run_app_next _ _ _ _ _ _ Rc), (run_app_next _ _ _ _ _ _ Rg). simpl. rewrite Cg. simpl. rewrite R1. simpl. rewrite V1. reflexivity.
+        * split. apply upd_same. split; [|apply stable_tmp; lia].
+          apply frame_upd_r; try lia. eapply frame_comp; [exact Fcg|exact F1|lia|lia|lia|lia].
+      + intros Hf. rewrite (run_app_next _ _ _ _ _ _ Rc), (run_app_next _ _ _ _ _ _ Rg). simpl. rewrite Cg. simpl. rewrite (So1 Hf). reflexivity.
+    - assert (HI2 : inv r cx3 sg n3).
+      { apply HIelse; [|lia]. intros x Hx.
+        rewrite (resolve_extE _ _ _ x X1) by (intros Hin; apply Hx; apply in_or_app; auto).
+        apply resolve_insert_all_other. intros Hin. apply Hx. apply in_or_app; auto. }
+      pose proof (IH2 _ _ _ sg tr1 _ _ _ _ _ E2 HI2 Dweak HN2) as So2. unfold Lower.sound, exec_block in So2.
+      destruct (seval w true r e2 tr1) as [v2 tr2|f2].
+      + destruct So2 as (s2' & R2 & V2 & F2 & St2).
+        exists (upd s2' (tmp n2) (Some v2)). split.
+        * rewrite (run_app_next _ _ _ _ _ _ Rc), (run_app_next _ _ _ _ _ _ Rg). simpl. rewrite Mg. simpl. rewrite R2. simpl. rewrite V2. reflexivity.
+        * split. apply upd_same. split; [|apply stable_tmp; lia].
+          apply frame_upd_r; try lia. eapply frame_comp; [exact Fcg|exact F2|lia|lia|lia|lia].
+      + intros Hf. rewrite (run_app_next _ _ _ _ _ _ Rc), (run_app_next _ _ _ _ _ _ Rg). simpl. rewrite Mg. simpl. rewrite (So2 Hf). reflexivity.
+  Qed.
+
+  Lemma case_ANil : P_arms ANil.
+  Proof.
+    intros re coll cx n r s tr D v ss rr n' cx' H HI HD HN Hre Hst. unfold Lower.sound. simpl. stuck.
+  Qed.
+
+  Lemma case_ACons : forall p bs body t, P_expr body -> P_arms t -> P_arms (ACons p bs body t).
+  Proof.
+    intros p bs body t IHb IHt re coll cx n r s tr D v ss rr n' cx' H HI HD HN Hre Hst. simpl in H.
+    destruct (lower_arms t re coll cx n) as [[[acc_s acc_e] n1] cx1] eqn:E1.
+    destruct (guard tmp p bs re (S n1)) as [[gs gc] n2] eqn:G.
+    destruct (lower body (insert_all tmp (push cx1) bs (S n1)) n2) as [[[sb rb] n3] cx3] eqn:E2. inv_pair H.
+    simpl in HN. destruct HN as ((Hwf & Hnd & Hincl & Hbs & Htop) & HNb & HNt).
+    destruct (shape_arms _ _ _ _ _ _ _ _ _ _ _ E1) as (L1 & X1).
+    destruct (shape_expr _ _ _ _ _ _ _ _ _ E2) as (L2 & X2).
+    pose proof (guard_cnt _ _ _ _ _ _ _ _ G) as LG.
+    unfold Lower.sound, exec_block. rewrite seval_arms_ACons.
+    destruct (sshape p v) eqn:Hsh; [|stuck].
+    assert (Hst1 : stable (S n1) re) by (eapply stable_mono; eauto; lia).
+    destruct (guard_sound w tmp tmp_inj _ _ _ _ _ s tr _ _ _ G Hwf Hnd Hincl Htop Hre Hsh Hst1) as (sg & Rg & Fg & Mg).
+    destruct (smatch p v) as [bd|] eqn:Hm.
+    - (* this arm: the body *)
+      destruct Mg as (Cg & Bg).
+      assert (HI1 : inv r (push cx1) s (S n1)).
+      { apply inv_push. eapply inv_after; [exact HI|exact HD| |exact X1|apply frame_refl|lia].
+        intros x Hx. eapply nsa_bva; eauto. }
+      destruct (inv_after_guard _ _ _ sg _ n2 _ _ _ _ _ HI1 HD Hbs Hnd Hincl (ltac:(unfold push; congruence)) Hm Fg Bg LG) as (HI2 & HD2).
+      pose proof (IHb _ _ _ sg tr _ _ _ _ _ E2 HI2 HD2 HNb) as Sob. unfold Lower.sound, exec_block in Sob.
+      destruct (seval w true (bind_all r bd) body tr) as [vb tr2|fb].
+      + destruct Sob as (sb' & Rb & Vb & Fb & Stb).
+        exists (upd sb' (tmp n1) (Some vb)). split.
+        * rewrite (run_app_next _ _ _ _ _ _ Rg). simpl. rewrite Cg. simpl. rewrite Rb. simpl. rewrite Vb. reflexivity.
+        * split. apply upd_same. split; [|apply stable_tmp; lia].
+          apply frame_upd_r; try lia. intros y Hy. rewrite Fb, Fg; auto; eapply (low_mono tmp); eauto; lia.
+      + intros Hf. rewrite (run_app_next _ _ _ _ _ _ Rg). simpl. rewrite Cg. simpl. rewrite (Sob Hf). reflexivity.
+    - (* the later arms, from the environment the pattern statements leave *)
+      assert (HIg : inv r cx sg n).
+      { eapply inv_frame; [exact HI| |apply Nat.le_refl]. intros y Hy. apply Fg. eapply (low_mono tmp); eauto; lia. }
+      assert (Hreg : heval sg re = Some v).
+      { destruct re; simpl in *; auto. rewrite Fg; auto. }
+      pose proof (IHt _ _ _ _ _ sg tr _ _ _ _ _ _ E1 HIg HD HNt Hreg Hst) as Sot. unfold Lower.sound, exec_block in Sot.
+      destruct (seval_arms w true r t v tr) as [vt tr2|ft].
+      + destruct Sot as (st' & Rt & Vt & Ft & Stt).
+        exists (upd st' (tmp n1) (Some vt)). split.
+        * rewrite (run_app_next _ _ _ _ _ _ Rg). simpl. rewrite Mg. simpl. rewrite Rt. simpl. rewrite Vt. reflexivity.
+        * split. apply upd_same. split; [|apply stable_tmp; lia].
+          apply frame_upd_r; try lia. intros y Hy. rewrite Ft, Fg; auto. eapply (low_mono tmp); eauto; lia.
+      + intros Hf. rewrite (run_app_next _ _ _ _ _ _ Rg). simpl. rewrite Mg. simpl. rewrite (Sot Hf). reflexivity.
+  Qed.
+
+  Lemma case_EMatch : forall e cs, P_expr e -> P_arms cs -> P_expr (EMatch e cs).
+  Proof.
+    intros e cs IHe IHc cx n r s tr D ss re n' cx' H HI HD HN. simpl in H.
+    destruct (lower e cx n) as [[[se rs] n1] cx1] eqn:E1.
+    destruct (lower_arms cs rs (tmp n1) cx1 (S n1)) as [[[sa ra] n2] cx2] eqn:E2. inv_pair H.
+    simpl in HN. destruct HN as (HNe & HNc).
+    pose proof (IHe _ _ _ s tr _ _ _ _ _ E1 HI HD HNe) as So1. unfold Lower.sound, exec_block in So1.
+    destruct (shape_expr _ _ _ _ _ _ _ _ _ E1) as (L1 & X1).
+    destruct (shape_arms _ _ _ _ _ _ _ _ _ _ _ E2) as (L2 & X2).
+    unfold Lower.sound, exec_block. rewrite seval_EMatch.
+    destruct (seval w true r e tr) as [v tr1|f]; [|intros Hf; apply run_app_fail; auto].
+    destruct So1 as (s1' & R1 & V1 & F1 & St1).
+    assert (HI1 : inv r cx1 s1' (S n1)).
+    { eapply inv_after; [exact HI|exact HD| |exact X1|exact F1|lia]. intros x Hx. eapply ns_bv; eauto. }
+    assert (St1' : stable (S n1) rs) by (eapply stable_mono; eauto).
+    pose proof (IHc _ _ _ _ _ s1' tr1 _ _ _ _ _ _ E2 HI1 HD HNc V1 St1') as So2. unfold Lower.sound, exec_block in So2.
+    destruct (seval_arms w true r cs v tr1) as [v2 tr2|f2].
+    - destruct So2 as (s2' & R2 & V2 & F2 & St2).
+      exists s2'. split. rewrite (run_app_next _ _ _ _ _ _ R1). exact R2.
+      split; [exact V2|]. split; [|exact St2]. eapply frame_comp; [exact F1|exact F2|lia|lia|lia|lia].
+    - intros Hf. rewrite (run_app_next _ _ _ _ _ _ R1). auto.
+  Qed.
+
   (* ------------------------------------------------------------------ assembly *)
-  Theorem lower_sound_all : (forall e, P_expr e) /\ (forall es, P_args es) /\ (forall b, P_blk b).
+  Theorem lower_sound_all : (forall e, P_expr e) /\ (forall es, P_args es) /\ (forall cs, P_arms cs) /\ (forall b, P_blk b).
   Proof.
     apply syntax_mind; intros.
     - apply case_EInt.
@@ -964,13 +1256,18 @@ Section Main.
     - apply case_ETuple; auto.
     - apply case_EIf; auto.
     - apply case_EBlock; auto.
+    - apply case_EMatch; auto.
+    - apply case_EIfLet; auto.
     - apply case_ELambda.
     - apply case_ENil.
     - apply case_ECons; auto.
+    - apply case_ANil.
+    - apply case_ACons; auto.
     - apply case_BEndU.
     - apply case_BEndE; auto.
     - apply case_BLet; auto.
     - apply case_BLetT; auto.
+    - apply case_BLetP; auto.
     - apply case_BExp; auto.
   Qed.
 
